@@ -23,9 +23,9 @@ EXTENDS Store, Json, IOUtils
 
 Traces == JsonDeserialize(IOEnv.TRACE_FILE)
 
-VARIABLES tid, l, st, insync, taint, ooc
+VARIABLES tid, l, st, insync, taint, ooc, mtaint
 
-tvars == <<vars, tid, l, st, insync, taint, ooc>>
+tvars == <<vars, tid, l, st, insync, taint, ooc, mtaint>>
 
 T == Traces[tid]
 
@@ -34,7 +34,7 @@ KnownOps == {"add_key", "del_key", "clear", "is_cleared", "is_set", "get", "set"
 
 TraceInit ==
     /\ tid \in 1..Len(Traces)
-    /\ l = 0 /\ st = "run" /\ insync = TRUE /\ taint = {} /\ ooc = <<>>
+    /\ l = 0 /\ st = "run" /\ insync = TRUE /\ taint = {} /\ ooc = <<>> /\ mtaint = {}
     /\ dt = Traces[tid].dt /\ dflt = Traces[tid].dflt
     /\ InitStore
 
@@ -104,7 +104,7 @@ Obs(c) ==
 Reject(step, clause) ==
     /\ PrintT(<<"VERDICT", tid, "REJECT", step, clause>>)
     /\ st' = "end"
-    /\ UNCHANGED <<vars, tid, l, insync, taint, ooc>>
+    /\ UNCHANGED <<vars, tid, l, insync, taint, ooc, mtaint>>
 
 (* the model of the code follows an out-of-contract call when that is well defined *)
 CDefined(c) == /\ c.op \in {"set", "get", "del_key", "is_set", "is_cleared"}
@@ -120,17 +120,25 @@ OutOfContract(c) ==
     /\ l' = l + 1
     /\ UNCHANGED <<tid, st, insync>>
 
+(* del_map is not among the operations C14 speaks about (today it is a lookup that
+   keeps the mapping; a store that really deleted the mapping would be as good): its
+   result is not judged, and what the maps of that index answer is not judged any more
+   until the index is added again (mtaint).  Everything else keeps being judged. *)
 TraceStep ==
     /\ st = "run" /\ l < Len(T.calls)
     /\ LET c == T.calls[l + 1] IN
         IF c.op \notin KnownOps THEN Reject(l + 1, "model-unknown-op")
         ELSE IF ~InContract(c) THEN OutOfContract(c)
-        ELSE IF ~Match(c.op, Obs(c), ARet(c)) THEN Reject(l + 1, c.op)
+        ELSE IF ~(c.op = "del_map" \/ (c.op \in {"get_map", "iterate_map", "add_map"} /\ c.i \in mtaint))
+                /\ ~Match(c.op, Obs(c), ARet(c)) THEN Reject(l + 1, c.op)
         ELSE /\ DoC(c) /\ DoA(c)
              /\ Book(c.op, c.i, 0, None, -1)
              /\ insync' = (insync /\ (ooc # <<>> \/ Obs(c) = CRet(c)))
              /\ taint' = IF c.op = "add_key" THEN taint \ {c.i}
                          ELSE IF c.op = "clear" THEN {} ELSE taint
+             /\ mtaint' = IF c.op = "del_map" THEN mtaint \cup {c.i}
+                          ELSE IF c.op = "add_key" THEN mtaint \ {c.i}
+                          ELSE IF c.op = "clear" THEN {} ELSE mtaint
              /\ l' = l + 1
              /\ UNCHANGED <<tid, st, ooc>>
 
@@ -138,7 +146,7 @@ TraceEnd ==
     /\ st = "run" /\ l = Len(T.calls)
     /\ PrintT(<<"VERDICT", tid, "ACCEPT", l, insync, ooc>>)
     /\ st' = "end"
-    /\ UNCHANGED <<vars, tid, l, insync, taint, ooc>>
+    /\ UNCHANGED <<vars, tid, l, insync, taint, ooc, mtaint>>
 
 TraceNext == TraceStep \/ TraceEnd
 
@@ -147,7 +155,7 @@ TraceSpec == TraceInit /\ [][TraceNext]_tvars
 (* the design-level invariants must also hold along every real trace (as long as the
    model of the code and the real code agree) *)
 TraceInvariants ==
-    (st = "run" /\ insync /\ ooc = <<>>) =>
+    (st = "run" /\ insync /\ ooc = <<>> /\ mtaint = {}) =>
         /\ RetEqualsModel /\ AllocatorFresh
         /\ Len(state) <= 50 => Refines      \* (quadratic on the long arrays of sparse indices)
 =============================================================================
